@@ -380,19 +380,22 @@ class Ref:
         if key in BUILTINS and key not in self.defs:
             yield from self.builtin(key, args, env, depth)
             return
-        # dynamic facts first: snapshot (logical update view)
-        for fid, fact in list(self.db.get(key, ())):
+        # the call is resolved NOW: snapshot of the dynamic facts (logical update view) and of the
+        # definitions registered for this name/arity (C08: "resolves, at the moment it is made")
+        facts = list(self.db.get(key, ()))
+        defs = self.defs.get(key)
+        if defs is None:
+            defs = self.defs.get((name, 'n'))
+        defs = list(defs or ())
+        for fid, fact in facts:
             self.tick(depth)
             f2 = self.rename(fact, {})
             e = unify_nsto(goal, f2, env) if n else env
             if e is not None:
                 yield e
-        defs = self.defs.get(key)
-        if defs is None:
-            defs = self.defs.get((name, 'n'))
         if not defs:
             return
-        for d in list(defs):
+        for d in defs:
             if callable(d):
                 # model of a registered Python predicate: d(ref, args, env) yields envs
                 yield from d(self, args, env)
